@@ -122,7 +122,7 @@ func c18VD(typ byte) {
 	if typ == 1 || typ == 2 {
 		if b[156+32] > 222 {
 			// KF-C18-21: name length above 222 in a directory record: 33+namelen is computed in 8 bits
-			vp.KnownPanic("KF-C18-21", "iso9660.dirEntryFromBytesWithJoliet)")
+			vp.KnownPanic("KF-C18-21", "iso9660.dirEntryFromBytesWithJoliet) | slice bounds out of range")
 		}
 	}
 	vp.NoPanic()
@@ -191,10 +191,12 @@ func c18Dirent(joliet bool, sig string) {
 	b := all[:n:n]
 	vp.Unwind(70)
 	// KF-C18-22: name length / system use entry lengths reaching beyond the record are not checked
-	vp.KnownPanic("KF-C18-22", "iso9660.dirEntryFromBytesWithJoliet)")
-	vp.KnownPanic("KF-C18-22", "iso9660.parseDirectoryEntryExtensions)")
-	vp.KnownPanic("KF-C18-22", "iso9660.parseSystemUseExtension")
-	vp.KnownPanic("KF-C18-22", "iso9660.rockRidgeExtension).parse")
+	vp.KnownPanic("KF-C18-22", "iso9660.dirEntryFromBytesWithJoliet) | slice bounds out of range")
+	vp.KnownPanic("KF-C18-22", "iso9660.parseDirectoryEntryExtensions) | slice bounds out of range")
+	vp.KnownPanic("KF-C18-22", "iso9660.parseSystemUseExtension | index out of range")
+	vp.KnownPanic("KF-C18-22", "iso9660.parseSystemUseExtension | slice bounds out of range")
+	vp.KnownPanic("KF-C18-22", "iso9660.rockRidgeExtension).parse | index out of range")
+	vp.KnownPanic("KF-C18-22", "iso9660.rockRidgeExtension).parse | slice bounds out of range")
 	vp.NoPanic()
 	de, err := dirEntryFromBytesWithJoliet(b, []suspExtension{getRockRidgeExtension(rockRidge112)}, joliet)
 	vp.AllowPanic()
@@ -246,8 +248,8 @@ func c18Dirents(joliet bool) {
 	vp.Unwind(12)
 	vp.MaxLoop(6)
 	// KF-C18-23: a record length reaching beyond the directory extent is not checked
-	vp.KnownPanic("KF-C18-23", "iso9660.parseDirEntries")
-	vp.KnownPanic("KF-C18-22", "iso9660.dirEntryFromBytesWithJoliet)")
+	vp.KnownPanic("KF-C18-23", "iso9660.parseDirEntries | slice bounds out of range")
+	vp.KnownPanic("KF-C18-22", "iso9660.dirEntryFromBytesWithJoliet) | slice bounds out of range")
 	vp.NoPanic()
 	var ents []*directoryEntry
 	var err error
@@ -358,7 +360,7 @@ func c18CEAlloc(empty bool) {
 	// KF-C18-28: a continuation area without entries leaves the extension list empty; its last element is
 	// inspected again
 	if empty {
-		vp.KnownPanic("KF-C18-28", "iso9660.parseDirEntry)")
+		vp.KnownPanic("KF-C18-28", "iso9660.parseDirEntry) | index out of range")
 	}
 	vp.NoPanic()
 	t0 := c18AllocBegin()
@@ -384,8 +386,9 @@ func c18PathTable(joliet bool) {
 	vp.Unwind(n + 3)
 	vp.MaxLoop(n) // fewer iterations than bytes, for the record loop and for the UCS-2 name loop
 	// KF-C18-25: a record reaching beyond the path table bytes is not checked
-	vp.KnownPanic("KF-C18-25", "iso9660.parsePathTable)")
-	vp.KnownPanic("KF-C18-25", "iso9660.parseJolietPathTable)")
+	vp.KnownPanic("KF-C18-25", "iso9660.parsePathTable) | index out of range")
+	vp.KnownPanic("KF-C18-25", "iso9660.parsePathTable) | slice bounds out of range")
+	vp.KnownPanic("KF-C18-25", "iso9660.parseJolietPathTable) | slice bounds out of range")
 	vp.NoPanic()
 	var pt *pathTable
 	if joliet {
@@ -410,7 +413,7 @@ func VP_C18_iso_pathtable_lookup() {
 	pt := parsePathTable(b)
 	if len(pt.records) == 0 {
 		// KF-C18-26: empty path table: records[0] is used unconditionally
-		vp.KnownPanic("KF-C18-26", "iso9660.pathTable).getLocation)")
+		vp.KnownPanic("KF-C18-26", "iso9660.pathTable).getLocation) | index out of range")
 	}
 	vp.NoPanic()
 	loc := pt.getLocation("/")
@@ -469,8 +472,9 @@ func c18IsoRead(t0typ, t1typ byte, maybeTerm bool) {
 	vp.Unwind(8)
 	vp.AllocCap(16)
 	vp.AllocLimit(limit)
-	vp.KnownPanic("KF-C18-25", "iso9660.parsePathTable)")
-	vp.KnownPanic("KF-C18-25", "iso9660.parseJolietPathTable)")
+	vp.KnownPanic("KF-C18-25", "iso9660.parsePathTable) | index out of range")
+	vp.KnownPanic("KF-C18-25", "iso9660.parsePathTable) | slice bounds out of range")
+	vp.KnownPanic("KF-C18-25", "iso9660.parseJolietPathTable) | slice bounds out of range")
 	vp.NoPanic()
 	a0 := c18AllocBegin()
 	fs, err := Read(dev, size, 0, 2048)
@@ -502,8 +506,8 @@ func VP_C18_iso_readdir_alloc() {
 	vp.Unwind(6)
 	vp.AllocCap(8)
 	vp.AllocLimit(limit)
-	vp.KnownPanic("KF-C18-23", "iso9660.parseDirEntries")
-	vp.KnownPanic("KF-C18-22", "iso9660.dirEntryFromBytesWithJoliet)")
+	vp.KnownPanic("KF-C18-23", "iso9660.parseDirEntries | slice bounds out of range")
+	vp.KnownPanic("KF-C18-22", "iso9660.dirEntryFromBytesWithJoliet) | slice bounds out of range")
 	vp.NoPanic()
 	a0 := c18AllocBegin()
 	_, err := f.readDirectoryPVD("/")
